@@ -2314,3 +2314,479 @@ pub fn c18(args: &Args) -> Report {
     rep.set("configurations", json!(cfgs.iter().map(|c| c.label()).collect::<Vec<_>>()));
     rep
 }
+
+// ------------------------------------------------------------------------------------------------
+// C16: directory listing returns each entry exactly once across any chunking / resumption
+
+const NAME_LENS: [usize; 6] = [1, 2, 7, 8, 9, 255];
+
+fn dir_names(n: usize, uniform: bool) -> Vec<String> {
+    if uniform {
+        // names of 5..8 bytes: the host's record and the FUSE record have the same size, so a getdents64
+        // batch that fills the buffer is delivered completely and ends in mid-directory
+        return (0..n).map(|i| format!("{:05}{}", i, "u".repeat(i % 4))).collect();
+    }
+    (0..n)
+        .map(|i| {
+            let l = NAME_LENS[i % NAME_LENS.len()];
+            let tag = format!("{}", i);
+            let mut s = tag.clone();
+            while s.len() < l {
+                s.push((b'a' + ((i + s.len()) % 26) as u8) as char);
+            }
+            if s.len() > l && l >= tag.len() {
+                s.truncate(l);
+            }
+            s
+        })
+        .collect::<BTreeSet<String>>()
+        .into_iter()
+        .collect()
+}
+
+fn fuse_reclen(namelen: usize, plus: bool) -> usize {
+    (if plus { 128 } else { 0 }) + ((24 + namelen + 7) & !7)
+}
+
+pub struct DirWorld {
+    pub w: PtWorld,
+    /// node of the listed directory
+    pub node: u64,
+    /// host view: name -> d_type
+    pub host: BTreeMap<Vec<u8>, u32>,
+    pub problems: Vec<(String, String)>,
+    /// canonical order: (name, cookie, type)
+    pub canon: Vec<(Vec<u8>, u64, u32)>,
+    pub pseudo: bool,
+}
+
+impl DirWorld {
+    pub fn new(cfg: &PtCfg, cl: &mut Client, n: usize, uniform: bool) -> DirWorld {
+        let w = PtWorld::new(cfg, cl, false);
+        let big = w.exp.join("big");
+        std::fs::create_dir(&big).unwrap();
+        let mut host = BTreeMap::new();
+        for (i, name) in dir_names(n, uniform).iter().enumerate() {
+            let p = big.join(name);
+            let t = match i % 7 {
+                3 => {
+                    std::fs::create_dir(&p).unwrap();
+                    libc::DT_DIR
+                }
+                5 => {
+                    std::os::unix::fs::symlink("x", &p).unwrap();
+                    libc::DT_LNK
+                }
+                _ => {
+                    std::fs::write(&p, b"").unwrap();
+                    libc::DT_REG
+                }
+            };
+            host.insert(name.as_bytes().to_vec(), t as u32);
+        }
+        let node = cl.lookup(&w.subj, 1, b"big").map(|e| e.nodeid).unwrap_or(0);
+        DirWorld { w, node, host, problems: Vec::new(), canon: Vec::new(), pseudo: false }
+    }
+
+    /// A Vfs whose root is a pseudo directory with `k` mount points.
+    pub fn new_pseudo(cl: &mut Client, k: usize) -> DirWorld {
+        use fuse_backend_rs::api::{Vfs, VfsOptions};
+        use fuse_backend_rs::passthrough::{Config, PassthroughFs};
+        let mut w = PtWorld::new(&PtCfg::base(), cl, false);
+        let vfs = Vfs::new(VfsOptions { no_open: false, no_opendir: false, ..VfsOptions::default() });
+        let mut host = BTreeMap::new();
+        for i in 0..k {
+            let d = w.exp.join(format!("src{}", i));
+            std::fs::create_dir(&d).unwrap();
+            let fs = PassthroughFs::<()>::new(Config { root_dir: d.to_string_lossy().to_string(), do_import: false, ..Config::default() }).unwrap();
+            fs.import().unwrap();
+            let name = format!("m{}{}", i, "x".repeat(i * 3));
+            vfs.mount(Box::new(fs), &format!("/{}", name)).unwrap();
+            host.insert(name.as_bytes().to_vec(), libc::DT_DIR as u32);
+        }
+        let vfs = std::sync::Arc::new(vfs);
+        w.subj = crate::ptworld::Subject::Vfs(fuse_backend_rs::api::server::Server::new(vfs.clone()));
+        w.vfs = Some(vfs);
+        w.fs = None;
+        let _ = cl.init(&w.subj, crate::ptworld::CAPABLE_ALL);
+        DirWorld { w, node: 1, host, problems: Vec::new(), canon: Vec::new(), pseudo: true }
+    }
+
+    fn bad(&mut self, class: &str, msg: String) {
+        self.problems.push((class.to_string(), msg));
+    }
+
+    pub fn opendir(&mut self, cl: &mut Client) -> Option<u64> {
+        if self.w.zero_message_opendir() && !self.pseudo {
+            return Some(0);
+        }
+        match cl.opendir(&self.w.subj, self.node, 0) {
+            Ok((fh, _)) => Some(fh),
+            Err(e) => {
+                self.bad("opendir-failed", format!("errno {}", e));
+                None
+            }
+        }
+    }
+
+    pub fn releasedir(&mut self, cl: &mut Client, fh: u64) {
+        if self.w.zero_message_opendir() && !self.pseudo {
+            return;
+        }
+        let _ = cl.release(&self.w.subj, self.node, fh, 0, true);
+    }
+
+    /// The order in which the server lists the directory, taken with one huge buffer.
+    pub fn establish_canon(&mut self, cl: &mut Client) -> bool {
+        let Some(fh) = self.opendir(cl) else { return false };
+        let mut off = 0u64;
+        let mut out: Vec<(Vec<u8>, u64, u32)> = Vec::new();
+        for _ in 0..(self.host.len() + 3) {
+            match cl.readdir(&self.w.subj, self.node, fh, off, 1 << 16, false) {
+                Ok(v) => {
+                    if v.is_empty() {
+                        break;
+                    }
+                    for d in v {
+                        off = d.off;
+                        out.push((d.name, d.off, d.typ));
+                    }
+                }
+                Err(e) => {
+                    self.bad("readdir-failed", format!("errno {} at offset {}", e, off));
+                    break;
+                }
+            }
+        }
+        self.releasedir(cl, fh);
+        self.canon = out;
+        self.check_listing("big-buffer-pass");
+        self.problems.is_empty()
+    }
+
+    /// canonical listing vs the host's view
+    fn check_listing(&mut self, what: &str) {
+        let mut seen: BTreeSet<Vec<u8>> = BTreeSet::new();
+        let canon = self.canon.clone();
+        for (name, off, typ) in &canon {
+            if name == b"." || name == b".." {
+                self.bad(&format!("{}/dot-entry", what), format!("{:?} listed", String::from_utf8_lossy(name)));
+            }
+            if !seen.insert(name.clone()) {
+                self.bad(&format!("{}/duplicate", what), format!("{:?} listed twice", String::from_utf8_lossy(name)));
+            }
+            if *off == 0 {
+                self.bad(&format!("{}/zero-offset", what), format!("{:?} has continuation offset 0", String::from_utf8_lossy(name)));
+            }
+            match self.host.get(name) {
+                None => self.bad(&format!("{}/phantom", what), format!("{:?} is not in the host directory", String::from_utf8_lossy(name))),
+                Some(t) => {
+                    if *typ != *t && !(self.pseudo && *typ == libc::DT_UNKNOWN as u32) {
+                        self.bad(&format!("{}/type", what), format!("{:?} listed with type {}, host says {}", String::from_utf8_lossy(name), typ, t));
+                    }
+                }
+            }
+        }
+        if seen.len() != self.host.len() && self.problems.is_empty() {
+            let missing: Vec<String> = self.host.keys().filter(|k| !seen.contains(*k)).take(3).map(|k| String::from_utf8_lossy(k).to_string()).collect();
+            self.bad(&format!("{}/missing", what), format!("{} of {} entries listed; missing e.g. {:?}", seen.len(), self.host.len(), missing));
+        }
+    }
+
+    /// One READDIR(PLUS) from `off` with `size`: must return a prefix of what follows `off` in the
+    /// canonical order, non-empty when the next entry fits, never more than `size`.
+    pub fn read_and_check(&mut self, cl: &mut Client, fh: u64, off: u64, size: u32, plus: bool, what: &str) -> Option<u64> {
+        let start = if off == 0 { 0 } else { self.canon.iter().position(|c| c.1 == off).map(|p| p + 1)? };
+        let r = cl.readdir(&self.w.subj, self.node, fh, off, size, plus);
+        let ents = match r {
+            Ok(v) => v,
+            Err(e) => {
+                let cls = if e == EBADREPLY { "reply-exceeds-size-or-partial" } else { "readdir-failed" };
+                self.bad(&format!("{}/{}", what, cls), format!("offset {} size {} plus {}: errno {}", off, size, plus, e));
+                return None;
+            }
+        };
+        let canon = self.canon.clone();
+        let rest = &canon[start..];
+        let mut used = 0usize;
+        for (i, d) in ents.iter().enumerate() {
+            used += fuse_reclen(d.name.len(), plus);
+            match rest.get(i) {
+                Some(c) if c.0 == d.name && c.1 == d.off => {
+                    if d.typ != c.2 {
+                        self.bad(&format!("{}/type-changed", what), format!("{:?}: type {} here, {} in the full listing", String::from_utf8_lossy(&d.name), d.typ, c.2));
+                    }
+                }
+                _ => {
+                    let exp = rest.get(i).map(|c| String::from_utf8_lossy(&c.0).to_string());
+                    let cls = if canon.iter().any(|c| c.0 == d.name) { "wrong-order-skipped-or-repeated" } else { "phantom" };
+                    self.bad(&format!("{}/{}", what, cls), format!("resuming at offset {} (size {}, plus {}): entry {} is {:?}, expected {:?}", off, size, plus, i, String::from_utf8_lossy(&d.name), exp));
+                    return None;
+                }
+            }
+        }
+        if used > size as usize {
+            self.bad(&format!("{}/reply-exceeds-size", what), format!("{} bytes of entries for size {}", used, size));
+        }
+        if ents.is_empty() {
+            if let Some(next) = rest.first() {
+                if fuse_reclen(next.0.len(), plus) <= size as usize {
+                    self.bad(
+                        &format!("{}/premature-end", what),
+                        format!("empty reply at offset {} with size {} (plus {}), but {} entries remain and the next one ({:?}) needs {} bytes", off, size, plus, rest.len(), String::from_utf8_lossy(&next.0), fuse_reclen(next.0.len(), plus)),
+                    );
+                }
+            }
+        }
+        Some(ents.last().map(|d| d.off).unwrap_or(off))
+    }
+
+    /// sequential pass with a fixed size on a fresh handle
+    pub fn pass(&mut self, cl: &mut Client, size: u32, plus: bool, what: &str) {
+        let Some(fh) = self.opendir(cl) else { return };
+        let mut off = 0u64;
+        let mut delivered = 0usize;
+        let maxrec = self.canon.iter().map(|c| fuse_reclen(c.0.len(), plus)).max().unwrap_or(32);
+        for _ in 0..(self.canon.len() + 3) {
+            match self.read_and_check(cl, fh, off, size, plus, what) {
+                None => break,
+                Some(noff) => {
+                    if noff == off {
+                        break;
+                    }
+                    delivered += self.canon.iter().position(|c| c.1 == noff).unwrap_or(0) + 1 - if off == 0 { 0 } else { self.canon.iter().position(|c| c.1 == off).unwrap_or(0) + 1 };
+                    off = noff;
+                }
+            }
+            if !self.problems.is_empty() {
+                break;
+            }
+        }
+        if self.problems.is_empty() && size as usize >= maxrec && delivered != self.canon.len() {
+            self.bad(&format!("{}/incomplete", what), format!("{} of {} entries delivered with size {}", delivered, self.canon.len(), size));
+        }
+        self.releasedir(cl, fh);
+    }
+}
+
+#[derive(Clone, Copy, Debug, PartialEq, Eq, Hash)]
+pub enum LOp {
+    /// read on handle h (0/1) from the k-th position (0 = start, k = after the k-th canonical entry) with size kind
+    Read(u8, u8, u8),
+    Reopen(u8),
+}
+
+impl<'a> SeqRun<'a> {
+    fn c16_small(&mut self, cfg: &PtCfg, n: usize, plus: bool, seq: &[LOp]) -> bool {
+        let uniform = n >= 10;
+        let mut dw = DirWorld::new(cfg, &mut self.cl, n, uniform);
+        let n0 = self.cl.nreq;
+        if !dw.establish_canon(&mut self.cl) {
+            // reported below
+        }
+        let mut hs = [dw.opendir(&mut self.cl).unwrap_or(0), dw.opendir(&mut self.cl).unwrap_or(0)];
+        if dw.problems.is_empty() {
+            for op in seq {
+                match op {
+                    LOp::Read(h, k, sk) => {
+                        let kk = (*k as usize).min(dw.canon.len());
+                        let off = if kk == 0 { 0 } else { dw.canon[kk - 1].1 };
+                        let next = dw.canon.get(kk).map(|c| fuse_reclen(c.0.len(), plus)).unwrap_or(32) as u32;
+                        let size = match sk {
+                            0 => next,
+                            // room for the following entry without its padding: it must not be appended
+                            1 => next + dw.canon.get(kk + 1).map(|c| (if plus { 128 } else { 0 }) + 24 + c.0.len()).unwrap_or(7) as u32,
+                            2 => next + dw.canon.get(kk + 1).map(|c| fuse_reclen(c.0.len(), plus)).unwrap_or(32) as u32,
+                            3 => 4096,
+                            // larger than the smallest host-side batch, smaller than the directory
+                            _ => 352 + if plus { 8 * 128 } else { 0 },
+                        };
+                        dw.read_and_check(&mut self.cl, hs[*h as usize], off, size, plus, "resume");
+                    }
+                    LOp::Reopen(h) => {
+                        dw.releasedir(&mut self.cl, hs[*h as usize]);
+                        hs[*h as usize] = dw.opendir(&mut self.cl).unwrap_or(0);
+                    }
+                }
+                if !dw.problems.is_empty() {
+                    break;
+                }
+            }
+        }
+        self.rep.eval();
+        self.rep.transitions += self.cl.nreq - n0;
+        self.rep.outcome(&format!("small:n{}:{}:{}", n, if plus { "plus" } else { "plain" }, if dw.problems.is_empty() { "ok" } else { "VIOLATION" }));
+        self.rep.state_of(&(cfg.label(), n, plus, format!("{:?}", seq)));
+        self.rep.sample(|| json!({"config": cfg.label(), "entries": n, "plus": plus, "sequence": format!("{:?}", seq)}));
+        let cut = !dw.problems.is_empty();
+        self.c16_report(cfg, &dw, json!({"entries": n, "plus": plus, "sequence": format!("{:?}", seq)}));
+        cut
+    }
+
+    fn c16_report(&mut self, cfg: &PtCfg, dw: &DirWorld, case: Value) {
+        let mut seen = BTreeSet::new();
+        for (class, msg) in &dw.problems {
+            if !seen.insert(class.clone()) {
+                continue;
+            }
+            let cfgl = cfg.label();
+            let c2 = case.clone();
+            let tag = if dw.pseudo { "@pseudo-dir" } else { "" };
+            self.rep.violation(&format!("{}/{}{}", self.prop, class, tag), msg, || json!({"engine": "ptfs-c16", "config": cfgl, "case": c2}));
+        }
+    }
+
+    fn c16_rec(&mut self, cfg: &PtCfg, n: usize, plus: bool, seq: &mut Vec<LOp>, alphabet: &[LOp], depth: usize) {
+        let cut = self.c16_small(cfg, n, plus, seq);
+        if cut || seq.len() >= depth || self.rep.over_budget() {
+            return;
+        }
+        for op in alphabet {
+            seq.push(*op);
+            self.c16_rec(cfg, n, plus, seq, alphabet, depth);
+            seq.pop();
+        }
+    }
+
+    fn c16_big(&mut self, cfg: &PtCfg, n: usize, uniform: bool, pseudo_mounts: Option<usize>) {
+        let mut dw = match pseudo_mounts {
+            Some(k) => DirWorld::new_pseudo(&mut self.cl, k),
+            None => DirWorld::new(cfg, &mut self.cl, n, uniform),
+        };
+        let n0 = self.cl.nreq;
+        let base_inodes = dw.w.table_sizes().0;
+        if dw.establish_canon(&mut self.cl) {
+            for plus in [false, true] {
+                let minrec = dw.canon.iter().map(|c| fuse_reclen(c.0.len(), plus)).max().unwrap_or(32) as u32;
+                let minfirst = dw.canon.first().map(|c| fuse_reclen(c.0.len(), plus)).unwrap_or(32) as u32;
+                let mut sizes = vec![minrec, minrec + 1, minrec + 100, 1024, 4096, 65536];
+                if minfirst < minrec {
+                    sizes.push(minfirst);
+                    sizes.push(32 + if plus { 128 } else { 0 });
+                }
+                sizes.sort_unstable();
+                sizes.dedup();
+                for size in sizes {
+                    dw.pass(&mut self.cl, size, plus, "sequential");
+                    if !dw.problems.is_empty() {
+                        break;
+                    }
+                }
+                if !dw.problems.is_empty() {
+                    break;
+                }
+                // rewinds: resume from every tenth (every one for small n) cookie, on one handle, going back and forth
+                if let Some(fh) = dw.opendir(&mut self.cl) {
+                    let step = if dw.canon.len() > 40 { 10 } else { 1 };
+                    let cookies: Vec<u64> = dw.canon.iter().map(|c| c.1).collect();
+                    let mut order: Vec<usize> = (0..cookies.len()).step_by(step).collect();
+                    let rev: Vec<usize> = order.iter().rev().cloned().collect();
+                    order.extend(rev);
+                    let last = cookies.last().cloned();
+                    for i in order {
+                        for size in [minrec, minrec + 3, 352 + if plus { 1024 } else { 0 }, 1024, 4096] {
+                            // read from c_i; go to the end (an empty batch); resume where the first read stopped,
+                            // then go back to c_i again
+                            let c1 = dw.read_and_check(&mut self.cl, fh, cookies[i], size, plus, "rewind");
+                            if let Some(last) = last {
+                                dw.read_and_check(&mut self.cl, fh, last, 4096, plus, "rewind");
+                            }
+                            if let Some(c1) = c1 {
+                                dw.read_and_check(&mut self.cl, fh, c1, size, plus, "resume-after-eof");
+                            }
+                            dw.read_and_check(&mut self.cl, fh, cookies[i], minrec, plus, "rewind-after-eof");
+                        }
+                        if !dw.problems.is_empty() {
+                            break;
+                        }
+                    }
+                    dw.releasedir(&mut self.cl, fh);
+                }
+                if !dw.problems.is_empty() {
+                    break;
+                }
+            }
+            // readdirplus took a lookup reference for exactly the entries it delivered: all of them now
+            if dw.problems.is_empty() && !dw.pseudo {
+                let live = dw.w.table_sizes().0;
+                if live != base_inodes + dw.canon.len() {
+                    dw.bad("readdirplus-references", format!("{} live inode objects after listing {} entries with readdirplus ({} before)", live, dw.canon.len(), base_inodes));
+                }
+            }
+        }
+        self.rep.eval();
+        self.rep.transitions += self.cl.nreq - n0;
+        self.rep.outcome(&format!("big:n{}:{}", dw.host.len(), if dw.problems.is_empty() { "ok" } else { "VIOLATION" }));
+        self.rep.state_of(&(cfg.label(), n, uniform, pseudo_mounts));
+        self.rep.sample(|| json!({"config": cfg.label(), "entries": dw.host.len(), "pseudo_mounts": pseudo_mounts, "canonical_first": dw.canon.iter().take(3).map(|c| (String::from_utf8_lossy(&c.0).to_string(), c.1)).collect::<Vec<_>>()}));
+        self.c16_report(cfg, &dw, json!({"entries": n, "uniform_names": uniform, "pseudo_mounts": pseudo_mounts}));
+    }
+}
+
+pub fn c16(args: &Args) -> Report {
+    let mut rep = args.report();
+    let thorough = args.thorough();
+    let b = PtCfg::base();
+    let cfgs = vec![
+        b.clone(),
+        PtCfg { no_opendir: true, ..b.clone() },
+        PtCfg { behind_vfs: true, ..b.clone() },
+        PtCfg { ext4: true, ..b.clone() },
+        PtCfg { ext4: true, no_opendir: true, inode_file_handles: true, ..b.clone() },
+    ];
+    let mut idx = 0u64;
+    let mut run = SeqRun { rep: &mut rep, cl: Client::new(), prop: "C16" };
+    run.cl.cap = 1 << 17;
+    // small directories: every resume sequence
+    let depth = if thorough { 4 } else { 3 };
+    for cfg in cfgs.iter().filter(|c| !c.ext4 || thorough) {
+        for n in [0usize, 1, 2, 3, 5, 12] {
+            if !thorough && n == 5 {
+                continue;
+            }
+            let mut alphabet: Vec<LOp> = Vec::new();
+            let positions: Vec<u8> = if n == 12 { vec![0, 4, 8, 9, 12] } else { (0..=(n as u8)).collect() };
+            let kinds: Vec<u8> = if n == 12 { vec![0, 4, 3] } else if thorough { vec![0, 1, 2, 3] } else { vec![0, 1, 3] };
+            for h in 0..2u8 {
+                for k in &positions {
+                    for sk in &kinds {
+                        alphabet.push(LOp::Read(h, *k, *sk));
+                    }
+                }
+                alphabet.push(LOp::Reopen(h));
+            }
+            for plus in [false, true] {
+                for a in &alphabet {
+                    if run.rep.mine(idx) {
+                        let mut seq = vec![*a];
+                        let d = if n >= 3 { depth - 1 } else { depth };
+                        let d = if n == 12 && !cfg.behind_vfs && !cfg.ext4 { depth } else { d };
+                        run.c16_rec(cfg, n, plus, &mut seq, &alphabet, d.max(2));
+                    }
+                    idx += 1;
+                }
+            }
+        }
+    }
+    // larger directories: sequential passes and rewinds
+    let ns: Vec<usize> = if thorough { vec![5, 17, 100, 1000, 5000] } else { vec![5, 17, 100, 1000] };
+    for cfg in &cfgs {
+        for &n in &ns {
+            for uniform in [false, true] {
+                if run.rep.mine(idx) {
+                    run.c16_big(cfg, n, uniform, None);
+                }
+                idx += 1;
+            }
+        }
+    }
+    for k in 0..=5usize {
+        if run.rep.mine(idx) {
+            run.c16_big(&b, 0, false, Some(k));
+        }
+        idx += 1;
+    }
+    rep.set("units_all_shards", json!(idx));
+    rep.set("configurations", json!(cfgs.iter().map(|c| c.label()).collect::<Vec<_>>()));
+    rep
+}
